@@ -1,5 +1,7 @@
 import FormulaeModel.Spec.C16
 import FormulaeModel.Generated.Tables
+import FormulaeModel.Proofs.ResponseCategorical
+import FormulaeModel.Proofs.HelpersPredict
 /-
 C16 — theorems about the model of the helper functions of transforms.py.
 -/
@@ -62,5 +64,417 @@ theorem aliases_shape : Generated.aliasShapeOk = true := by decide
 /-- tie: in the live TRANSFORMS registry the documented aliases are one object each -/
 theorem aliases_tie : Spec.C16.documentedAliases.all
     (fun g => Generated.aliasGroups.any (fun h => g.all h.contains)) = true := by decide
+
+-- ---------------------------------------------------------------------------------------------
+-- `binary` on string / categorical data
+-- ---------------------------------------------------------------------------------------------
+/-- `binary(x, s)` on a string / categorical column (or any column of levels) with an explicit
+success value: accepted iff `s` occurs in the data, and then the result is 1 exactly where x
+equals s.  The declared categories `d` (ordered or not) play no role. -/
+theorem C16_binary_levels (xs : List Level) (d : Option (Bool × List String)) (v : Val) (s : Level)
+    (hs : levelOfVal v = some s) :
+    binaryFn (.lvec (xs.map some) d) v =
+      if xs.contains s then .ok (.vec (xs.map (fun x => some (if x = s then 1 else 0))) true)
+      else .error (.valueError "No value in 'x' is equal") := by
+  have hne := levelOfVal_ne_pyNone v s hs
+  have h1 : (xs.map some).any Option.isNone = false := by simp
+  have h2 : (xs.map some).filterMap id = xs := by simp [List.filterMap_map]
+  unfold binaryFn
+  simp only [h1, Bool.false_eq_true, if_false, h2, bind, Except.bind, pure, Except.pure]
+  cases v <;> simp_all [levelOfVal]
+  all_goals simp [Function.comp_def]
+
+/-- with the success value omitted, `binary` on levels uses the first of the sorted distinct
+values of the data it is given — the smallest value: it occurs in the data and no value is below
+it — and is then never refused.  For an ordered categorical the *declared* order is not
+consulted (`d` is arbitrary). -/
+theorem C16_binary_levels_default (xs : List Level) (d : Option (Bool × List String)) (m : Level)
+    (rest : List Level) (h : sortLevels xs = some (m :: rest)) :
+    binaryFn (.lvec (xs.map some) d) .pyNone =
+      .ok (.vec (xs.map (fun x => some (if x = m then 1 else 0))) true) ∧
+    m ∈ xs ∧ ∀ l ∈ xs, levelLt l m = false := by
+  obtain ⟨hm, hmin⟩ := sortLevels_head_min xs m rest h
+  refine ⟨?_, hm, hmin⟩
+  have h1 : (xs.map some).any Option.isNone = false := by simp
+  have h2 : (xs.map some).filterMap id = xs := by simp [List.filterMap_map]
+  unfold binaryFn
+  simp only [h1, Bool.false_eq_true, if_false, h2, bind, Except.bind, pure, Except.pure, h]
+  simp [hm, Function.comp_def]
+
+/-- … and it is refused when there is no smallest value: no data, or values of mixed type -/
+theorem C16_binary_levels_default_refused (xs : List Level) (d : Option (Bool × List String))
+    (h : sortLevels xs = none ∨ sortLevels xs = some []) :
+    binaryFn (.lvec (xs.map some) d) .pyNone = .error (.valueError "empty") := by
+  have h1 : (xs.map some).any Option.isNone = false := by simp
+  have h2 : (xs.map some).filterMap id = xs := by simp [List.filterMap_map]
+  unfold binaryFn
+  rcases h with h | h <;>
+    simp only [h1, Bool.false_eq_true, if_false, h2, bind, Except.bind, pure, Except.pure, h]
+
+/-- a success value that is not a level (a float, `True`, a list, …) is refused -/
+theorem C16_binary_levels_bad_success (xs : List Level) (d : Option (Bool × List String)) (v : Val)
+    (hv : v ≠ .pyNone) (hs : levelOfVal v = none) :
+    binaryFn (.lvec (xs.map some) d) v = .error (.valueError "No value in 'x' is equal") := by
+  have h1 : (xs.map some).any Option.isNone = false := by simp
+  have h2 : (xs.map some).filterMap id = xs := by simp [List.filterMap_map]
+  unfold binaryFn
+  simp only [h1, Bool.false_eq_true, if_false, h2, bind, Except.bind, pure, Except.pure]
+  cases v <;> simp_all [levelOfVal]
+
+/-- **model = statement** for `binary` on levels: the model returns exactly the column of
+`Spec.C16.binaryExpected` (1 where x equals s; s the smallest value if omitted) and refuses exactly
+when the statement has no column (the success value never occurs / there is no smallest value) -/
+theorem C16_binary_levels_spec (xs : List Level) (d : Option (Bool × List String)) (v : Val)
+    (s : Option Level)
+    (hs : (v = .pyNone ∧ s = none) ∨ (∃ l, levelOfVal v = some l ∧ s = some l)) :
+    match Spec.C16.binaryExpected (xs.map some) s with
+    | some col => binaryFn (.lvec (xs.map some) d) v = .ok (.vec col true)
+    | none => ∃ e, binaryFn (.lvec (xs.map some) d) v = .error e := by
+  have h2 : (xs.map some).filterMap id = xs := by simp [List.filterMap_map]
+  rcases hs with ⟨rfl, rfl⟩ | ⟨l, hl, rfl⟩
+  · simp only [Spec.C16.binaryExpected, h2]
+    cases hsl : sortLevels xs with
+    | none =>
+      simp only [Option.bind_none]
+      exact ⟨_, C16_binary_levels_default_refused xs d (Or.inl hsl)⟩
+    | some ls =>
+      cases ls with
+      | nil =>
+        simp only [Option.bind_some, List.head?_nil]
+        exact ⟨_, C16_binary_levels_default_refused xs d (Or.inr hsl)⟩
+      | cons m rest =>
+        obtain ⟨h1, hm, _⟩ := C16_binary_levels_default xs d m rest hsl
+        simp only [Option.bind_some, List.head?_cons]
+        have : (xs.map some).contains (some m) = true := by simpa using hm
+        simp only [this, if_true]
+        rw [h1]
+        simp [Function.comp_def]
+  · simp only [Spec.C16.binaryExpected]
+    rw [C16_binary_levels xs d v l hl]
+    by_cases hc : l ∈ xs
+    · have : (xs.map some).contains (some l) = true := by simpa using hc
+      simp [this, hc, Function.comp_def]
+    · have : (xs.map some).contains (some l) = false := by simpa using hc
+      simp [this, hc]
+
+-- ---------------------------------------------------------------------------------------------
+-- helpers at prediction time (`eval_new_data`)
+-- ---------------------------------------------------------------------------------------------
+/-- **`offset(x)` at training and at prediction**: the training column is `x` unchanged, and on a
+new frame the offset is the new frame's `x`, unchanged — recomputed, whatever the training data
+were -/
+theorem C16_offset_variable_predict (env : Env) (name : String) (k : Kind) (lp rp v : Token)
+    (c : Column) (xs : List Entry) (i full : Bool) (out : CompOut)
+    (hc : env.frame.col? v.lexeme = some c) (hv : colVal c = .vec xs i)
+    (h : trainComp env name (call1 k "offset" lp rp (.variable v)) false false full = .ok out) :
+    out.value = colOfEntries xs ∧ out.st.kind = .offset ∧
+    ∀ (env' : Env) (mode : UnseenMode) (c' : Column) (xs' : List Entry) (i' : Bool),
+      env'.frame.col? v.lexeme = some c' → colVal c' = .vec xs' i' →
+      newComp out.st env' mode = .ok (colOfEntries xs', false) := by
+  have ha := evalArg_variable env v (TS.child none 0) _ (lookupName_col env _ c hc)
+  simp only [call1, trainComp, evalArg_call1 env k "offset" lp rp _ none _ _ ha, hv] at h
+  simp only [finishCall_offset, C16_offset_variable, bind, Except.bind, pure, Except.pure, posOnly] at h
+  simp only [Bool.false_eq_true, if_false, Except.ok.injEq] at h
+  subst h
+  refine ⟨rfl, rfl, ?_⟩
+  intro env' mode c' xs' i' hc' hv'
+  have ha' := evalArg_variable env' v (TS.child (some (TS.node (TS.own none) [TS.leaf])) 0) _
+    (lookupName_col env' _ c' hc')
+  rw [newComp_offset _ env' mode rfl rfl]
+  simp only [evalArg_call1 env' k "offset" lp rp _ _ _ _ ha', hv', finishCall_offset,
+    C16_offset_variable, bind, Except.bind, pure, Except.pure, posOnly]
+
+/-- `offset(c)` with an argument that evaluates to a number at training (a literal —
+`evalArg_intLiteral` —, or a name bound to a number in the caller's namespace): the constant is
+broadcast to the rows of the training frame, and at prediction to the rows of the **new** frame -/
+theorem C16_offset_constant_predict (env : Env) (name : String) (k : Kind) (lp rp : Token) (a : Expr)
+    (q : Rat) (isInt : Bool) (sa : TS) (full : Bool) (out : CompOut)
+    (ha : evalArg env a (TS.child none 0) = .ok (none, .num q isInt, sa))
+    (h : trainComp env name (call1 k "offset" lp rp a) false false full = .ok out) :
+    out.value = List.replicate env.frame.nrows [some q] ∧ out.st.kind = .offset ∧
+    ∀ (env' : Env) (mode : UnseenMode),
+      newComp out.st env' mode = .ok (List.replicate env'.frame.nrows [some q], false) := by
+  simp only [call1, trainComp, evalArg_call1 env k "offset" lp rp _ none _ _ ha] at h
+  simp only [finishCall_offset, C16_offset_constant, bind, Except.bind, pure, Except.pure, posOnly] at h
+  simp only [Bool.false_eq_true, if_false, Except.ok.injEq] at h
+  subst h
+  refine ⟨rfl, rfl, ?_⟩
+  intro env' mode
+  rw [newComp_offset _ env' mode rfl rfl]
+
+/-- what `eval_new_data` does for **every** offset component: a remembered constant is broadcast
+to the rows of the new frame, otherwise the call is re-evaluated on the new frame -/
+theorem C16_offset_newdata (st : CompState) (env' : Env) (mode : UnseenMode)
+    (he : isCallLike' st.expr = true) (hk : st.kind = .offset) :
+    newComp st env' mode =
+      match st.offsetConst with
+      | some q => .ok (List.replicate env'.frame.nrows [some q], false)
+      | none =>
+        match posOnly (evalArg env' st.expr (some st.tstate)) with
+        | .ok (.offsetVar xs, _) => .ok (colOfEntries xs, false)
+        | .ok _ => .error .typeError
+        | .error e => .error e :=
+  newComp_offset st env' mode he hk
+
+/-- **`prop(s, t)` / `p` / `proportion` with a trials column**: at training the two columns
+(successes, trials) — after the validation of `C16_prop_valid_iff` —, and at prediction the trials
+column of the **new** frame -/
+theorem C16_prop_variable_predict (env : Env) (name : String) (k : Kind) (f : String)
+    (hf : f = "p" ∨ f = "prop" ∨ f = "proportion") (lp cm rp s t : Token)
+    (cs ct : Column) (ss ts : List Entry) (i j full : Bool) (out : CompOut)
+    (hcs : env.frame.col? s.lexeme = some cs) (hvs : colVal cs = .vec ss i)
+    (hct : env.frame.col? t.lexeme = some ct) (hvt : colVal ct = .vec ts j)
+    (h : trainComp env name (call2 k f lp cm rp (.variable s) (.variable t)) false true full = .ok out) :
+    out.value = List.zipWith (fun a b => [a, b]) ss ts ∧ out.st.kind = .proportion ∧
+    Spec.C16.propValid ss ts = true ∧
+    ∀ (env' : Env) (mode : UnseenMode) (c' : Column) (ts' : List Entry) (j' : Bool),
+      env'.frame.col? t.lexeme = some c' → colVal c' = .vec ts' j' →
+      newComp out.st env' mode = .ok (colOfEntries ts', false) := by
+  have ha := evalArg_variable env s (TS.child none 0) _ (lookupName_col env _ cs hcs)
+  have hb := evalArg_variable env t (TS.child none 1) _ (lookupName_col env _ ct hct)
+  have hfc : finishCall f = finishCall "p" := by
+    rcases hf with rfl | rfl | rfl <;> rfl
+  simp only [call2, trainComp, evalArg_call2 env k f lp rp cm _ _ none _ _ _ _ ha hb, hvs, hvt, hfc] at h
+  simp only [finishCall_p, CallArgs.get, bind, Except.bind, pure, Except.pure, posOnly] at h
+  cases hp : proportionFn (.vec ss i) (.vec ts j) with
+  | error e => simp [hp] at h
+  | ok v =>
+    have hv := proportionFn_vec_ok ss ts i j v hp
+    subst hv
+    simp only [hp, List.getElem?_cons_zero, List.getElem?_cons_succ, Bool.not_true,
+      Bool.false_eq_true, if_false, Except.ok.injEq] at h
+    subst h
+    refine ⟨rfl, rfl, (C16_prop_valid_iff ss ts i j).1 ⟨_, hp⟩, ?_⟩
+    intro env' mode c' ts' j' hc' hv'
+    rw [newComp_proportion _ env' mode rfl rfl]
+    simp only [Option.bind_some, hc', hv']
+
+/-- `prop(s, c)` with a trials argument that evaluates to an integer constant at training (a literal,
+or a name bound to an integer): broadcast at training, and at prediction to the rows of the
+**new** frame -/
+theorem C16_prop_constant_predict (env : Env) (name : String) (k : Kind) (f : String)
+    (hf : f = "p" ∨ f = "prop" ∨ f = "proportion") (lp cm rp s : Token) (b : Expr) (n : Rat) (sb : TS)
+    (cs : Column) (ss : List Entry) (i full : Bool) (out : CompOut)
+    (hcs : env.frame.col? s.lexeme = some cs) (hvs : colVal cs = .vec ss i)
+    (hb : evalArg env b (TS.child none 1) = .ok (none, .num n true, sb))
+    (h : trainComp env name (call2 k f lp cm rp (.variable s) b) false true full = .ok out) :
+    out.value = ss.map (fun a => [a, some n]) ∧ out.st.kind = .proportion ∧
+    ∀ (env' : Env) (mode : UnseenMode),
+      newComp out.st env' mode = .ok (List.replicate env'.frame.nrows [some n], false) := by
+  have ha := evalArg_variable env s (TS.child none 0) _ (lookupName_col env _ cs hcs)
+  have hfc : finishCall f = finishCall "p" := by
+    rcases hf with rfl | rfl | rfl <;> rfl
+  simp only [call2, trainComp, evalArg_call2 env k f lp rp cm _ _ none _ _ _ _ ha hb, hvs, hfc] at h
+  simp only [finishCall_p, CallArgs.get, bind, Except.bind, pure, Except.pure, posOnly] at h
+  cases hp : proportionFn (.vec ss i) (.num n true) with
+  | error e => simp [hp] at h
+  | ok v =>
+    have hv := proportionFn_const_ok ss i n v hp
+    subst hv
+    simp only [hp, List.getElem?_cons_zero, List.getElem?_cons_succ, Bool.not_true,
+      Bool.false_eq_true, if_false, Except.ok.injEq] at h
+    have hval : out.value = List.zipWith (fun a b => [a, b]) ss (List.replicate ss.length (some n)) ∧
+        out.st.kind = .proportion ∧ out.st.propConst = some n ∧ isCallLike' out.st.expr = true := by
+      cases b <;> (simp only [] at h; subst h; exact ⟨rfl, rfl, rfl, rfl⟩)
+    obtain ⟨h1, h2, h3, h4⟩ := hval
+    refine ⟨?_, h2, ?_⟩
+    · rw [h1]
+      clear hp hvs ha h h1
+      induction ss with
+      | nil => rfl
+      | cons a ss ih => simp [List.replicate_succ, ih]
+    · intro env' mode
+      rw [newComp_proportion _ env' mode h4 h2, h3]
+
+/-- what `eval_new_data` does for **every** proportion component -/
+theorem C16_prop_newdata (st : CompState) (env' : Env) (mode : UnseenMode)
+    (he : isCallLike' st.expr = true) (hk : st.kind = .proportion) :
+    newComp st env' mode =
+      match st.propConst with
+      | some q => .ok (List.replicate env'.frame.nrows [some q], false)
+      | none =>
+        match st.propTrialsName.bind env'.frame.col? with
+        | some c => match colVal c with
+          | .vec xs _ => .ok (colOfEntries xs, false)
+          | _ => .error .typeError
+        | none => .error (.keyError "trials") :=
+  newComp_proportion st env' mode he hk
+
+/-- **`binary` is not stateful** (finding D14): on a new frame `binary(x)` / `B(x)` is `binaryFn`
+of the **new** column alone — the success value is re-derived from the new data (its smallest
+value), nothing of the training frame is remembered; with an explicit success value `binary(x, s)`
+re-checks that `s` occurs in the new column and refuses the prediction otherwise. -/
+theorem C16_binary_newdata_recomputed (env : Env) (name : String) (k : Kind) (f : String)
+    (hf : f = "binary" ∨ f = "B") (lp rp v : Token) (full : Bool) (out : CompOut)
+    (h : trainComp env name (call1 k f lp rp (.variable v)) false false full = .ok out) :
+    ∀ (env' : Env) (mode : UnseenMode) (c' : Column), env'.frame.col? v.lexeme = some c' →
+      newComp out.st env' mode =
+        match binaryFn (colVal c') .pyNone with
+        | .ok (.vec ys _) => .ok (colOfEntries ys, false)
+        | .ok _ => .error (.unmodelled "numeric call returned a non-vector")
+        | .error e => .error e := by
+  have hfc : finishCall f = finishCall "binary" := by
+    rcases hf with rfl | rfl <;> rfl
+  intro env' mode c' hc'
+  -- the trained state: a numeric call component holding the expression
+  have hst : out.st.expr = call1 k f lp rp (.variable v) ∧ out.st.kind = .numeric := by
+    cases hl : lookupName env v.lexeme with
+    | error e =>
+      simp only [call1, trainComp, evalArg, evalArgs, hl, bind, Except.bind, posOnly] at h
+      simp at h
+    | ok val =>
+      have ha := evalArg_variable env v (TS.child none 0) _ hl
+      simp only [call1, trainComp, evalArg_call1 env k f lp rp _ none _ _ ha, hfc] at h
+      simp only [finishCall_binary, CallArgs.get, bind, Except.bind, pure, Except.pure, posOnly] at h
+      cases hb : binaryFn val .pyNone with
+      | error e =>
+        simp only [List.getElem?_cons_zero, List.getElem?_cons_succ, List.getElem?_nil,
+          List.find?_nil, Option.map_none, Option.getD_none, hb] at h
+        cases h
+      | ok r =>
+        have hr : ∃ ys b, r = .vec ys b := binaryFn_vec _ _ _ hb
+        obtain ⟨ys, b, rfl⟩ := hr
+        simp only [List.getElem?_cons_zero, List.getElem?_cons_succ, List.getElem?_nil,
+          List.find?_nil, Option.map_none, Option.getD_none, hb, Bool.false_eq_true, if_false,
+          Except.ok.injEq] at h
+        subst h
+        exact ⟨rfl, rfl⟩
+  obtain ⟨hexp, hkind⟩ := hst
+  have ha' := evalArg_variable env' v (TS.child (some out.st.tstate) 0) _ (lookupName_col env' _ c' hc')
+  rw [newComp_numericCall _ env' mode (by rw [hexp]; rfl) hkind, hexp]
+  simp only [call1, evalArg_call1 env' k f lp rp _ _ _ _ ha', hfc, finishCall_binary, CallArgs.get,
+    bind, Except.bind, pure, Except.pure, posOnly]
+  simp
+  cases binaryFn (colVal c') .pyNone with
+  | error e => rfl
+  | ok r => cases r <;> rfl
+
+-- ---------------------------------------------------------------------------------------------
+-- aliases at the evaluation level
+-- ---------------------------------------------------------------------------------------------
+/-- `B` is `binary`, `p` and `prop` are `proportion`: the same function of the evaluated
+arguments and the transform state (results and errors alike) -/
+theorem C16_alias_functions :
+    finishCall "B" = finishCall "binary" ∧ finishCall "p" = finishCall "proportion" ∧
+    finishCall "prop" = finishCall "proportion" :=
+  ⟨by funext a own; rfl, by funext a own; rfl, by funext a own; rfl⟩
+
+/-- … hence a call spelled with an alias evaluates like the call spelled with the other name, on
+every frame, for every argument list (keywords included), at training and at prediction -/
+theorem C16_alias_eval (env : Env) (f g : String) (hfg : finishCall f = finishCall g)
+    (k k' : Kind) (lp lp' rp rp' : Token) (as : Args) (ts : Option TS) :
+    evalArg env (.call (.variable ⟨k, f⟩) lp as rp) ts =
+      evalArg env (.call (.variable ⟨k', g⟩) lp' as rp') ts := by
+  simp only [evalArg, hfg]
+
+/-- `Treatment(r)` / `Sum(o)` evaluate to the coding with that reference / omitted level -/
+theorem C16_Treatment_value (r : Val) (own : Option Rat) :
+    applyCallee "Treatment" ⟨[r], []⟩ own = .ok (.contrast (.treatment (levelOfVal r)), own) := rfl
+theorem C16_Sum_value (o : Val) (own : Option Rat) :
+    applyCallee "Sum" ⟨[o], []⟩ own = .ok (.contrast (.sum (levelOfVal o)), own) := rfl
+
+/-- `T(x, r, …) = C(x, Treatment(r), …)` for data that is not already a `CategoricalBox`
+(guard = the complement of the class of finding D25) -/
+theorem C16_alias_T_partial (x r : Val) (tl : List Val) (kw : List (String × Val)) (own : Option Rat)
+    (hx : ∀ b, x ≠ .box b) :
+    applyCallee "T" ⟨x :: r :: tl, kw⟩ own =
+      applyCallee "C" ⟨x :: .contrast (.treatment (levelOfVal r)) :: tl, kw⟩ own := by
+  cases x <;> first | (exact absurd rfl (hx _)) | skip
+  all_goals
+    simp only [applyCallee, CallArgs.get, List.getElem?_cons_zero, List.getElem?_cons_succ,
+      contrastOfVal, bind, Except.bind, pure, Except.pure]
+
+/-- `S(x, o, …) = C(x, Sum(o), …)`, same guard -/
+theorem C16_alias_S_partial (x o : Val) (tl : List Val) (kw : List (String × Val)) (own : Option Rat)
+    (hx : ∀ b, x ≠ .box b) :
+    applyCallee "S" ⟨x :: o :: tl, kw⟩ own =
+      applyCallee "C" ⟨x :: .contrast (.sum (levelOfVal o)) :: tl, kw⟩ own := by
+  cases x <;> first | (exact absurd rfl (hx _)) | skip
+  all_goals
+    simp only [applyCallee, CallArgs.get, List.getElem?_cons_zero, List.getElem?_cons_succ,
+      contrastOfVal, bind, Except.bind, pure, Except.pure]
+
+/-- outside the guard the alias fails (finding D25): `T(C(g), "b")` is refused although
+`C(C(g), Treatment("b"))` is accepted -/
+theorem C16_alias_T_counterexample :
+    let box : Val := .box ⟨[some (.s "a"), some (.s "b")], none, none⟩
+    (∃ e, applyCallee "T" ⟨[box, .str "b"], []⟩ none = .error e) ∧
+    (∃ v, applyCallee "C" ⟨[box, .contrast (.treatment (levelOfVal (.str "b")))], []⟩ none = .ok v) :=
+  ⟨⟨_, rfl⟩, ⟨_, rfl⟩⟩
+
+-- ---------------------------------------------------------------------------------------------
+-- non-vacuity: the hypotheses of the theorems above hold for concrete small inputs
+-- ---------------------------------------------------------------------------------------------
+namespace Ex
+def tk (k : Kind) (s : String) : Token := ⟨k, s⟩
+def fr : Frame :=
+  [⟨"x", .numeric true, [.num 3, .num 1, .num 3]⟩, ⟨"s", .numeric true, [.num 1, .num 0, .num 2]⟩,
+   ⟨"t", .numeric true, [.num 2, .num 2, .num 2]⟩, ⟨"g", .string, [.str "b", .str "a", .str "b"]⟩]
+def fr' : Frame :=
+  [⟨"x", .numeric true, [.num 7, .num 9]⟩, ⟨"s", .numeric true, [.num 1, .num 0]⟩,
+   ⟨"t", .numeric true, [.num 5, .num 6]⟩, ⟨"g", .string, [.str "a", .str "a"]⟩]
+def env : Env := ⟨fr, [("k", .num 3 true)]⟩
+def env' : Env := ⟨fr', []⟩
+def lp := tk .LEFT_PAREN "("
+def rp := tk .RIGHT_PAREN ")"
+def cm := tk .COMMA ","
+def var (n : String) : Expr := .variable (tk .IDENTIFIER n)
+theorem ok_of_toBool {ε α : Type} (x : Except ε α) (h : x.toBool = true) : ∃ a, x = .ok a := by
+  cases x with
+  | ok a => exact ⟨a, rfl⟩
+  | error e => cases h
+def lv : List Level := [.s "b", .s "a", .s "b"]
+end Ex
+
+open Ex in
+/-- `C16_binary_levels`: success value present (accepted) and absent (refused) -/
+example : levelOfVal (.str "a") = some (.s "a") ∧ lv.contains (.s "a") = true ∧
+    levelOfVal (.str "z") = some (.s "z") ∧ lv.contains (.s "z") = false := by
+  refine ⟨rfl, by decide, rfl, by decide⟩
+open Ex in
+/-- `C16_binary_levels_default`: the default success of ["b","a","b"] is "a" -/
+example : sortLevels lv = some (.s "a" :: [.s "b"]) := by decide +kernel
+/-- `C16_binary_levels_default_refused`: mixed types -/
+example : sortLevels [.s "a", .n 1] = none := by decide +kernel
+/-- `C16_binary_levels_bad_success` -/
+example : Val.bool true ≠ .pyNone ∧ levelOfVal (.bool true) = none := ⟨(by intro h; cases h), rfl⟩
+open Ex in
+/-- `C16_binary_levels_spec`: both kinds of success argument -/
+example : Spec.C16.binaryExpected (lv.map some) none = some [some 0, some 1, some 0] ∧
+    Spec.C16.binaryExpected (lv.map some) (some (.s "z")) = none := by
+  refine ⟨by decide +kernel, by decide +kernel⟩
+
+open Ex in
+/-- `C16_offset_variable_predict`: `offset(x)` trained on `fr`, predicted on `fr'` -/
+example : env.frame.col? "x" = some ⟨"x", .numeric true, [.num 3, .num 1, .num 3]⟩ ∧
+    (∃ out, trainComp env "offset(x)" (call1 .IDENTIFIER "offset" lp rp (var "x")) false false false = .ok out) ∧
+    env'.frame.col? "x" = some ⟨"x", .numeric true, [.num 7, .num 9]⟩ :=
+  ⟨rfl, ok_of_toBool _ (by decide +kernel), rfl⟩
+open Ex in
+/-- `C16_offset_constant_predict`: `offset(k)` with `k = 3` in the caller's namespace -/
+example : evalArg env (var "k") (TS.child none 0) = .ok (none, .num 3 true, .leaf) ∧
+    ∃ out, trainComp env "offset(k)" (call1 .IDENTIFIER "offset" lp rp (var "k")) false false false = .ok out :=
+  ⟨rfl, ok_of_toBool _ (by decide +kernel)⟩
+open Ex in
+/-- `C16_prop_variable_predict` / `C16_prop_constant_predict`: `prop(s, t)`, `p(s, k)` (k = 3) as responses -/
+example :
+    (∃ out, trainComp env "prop(s, t)" (call2 .IDENTIFIER "prop" lp cm rp (var "s") (var "t")) false true true = .ok out) ∧
+    (∃ out, trainComp env "p(s, k)" (call2 .IDENTIFIER "p" lp cm rp (var "s") (var "k")) false true true = .ok out) ∧
+    evalArg env (var "k") (TS.child none 1) = .ok (none, .num 3 true, .leaf) :=
+  ⟨ok_of_toBool _ (by decide +kernel), ok_of_toBool _ (by decide +kernel), rfl⟩
+open Ex in
+/-- `C16_binary_newdata_recomputed`: `binary(x)` trains on `fr` (success 1) and is recomputed on
+`fr'`, where the success value becomes 7 — the instance of finding D14 -/
+example :
+    (∃ out, trainComp env "binary(x)" (call1 .IDENTIFIER "binary" lp rp (var "x")) false false false = .ok out) ∧
+    (match binaryFn (.vec [some 3, some 1, some 3] true) .pyNone with
+      | .ok (.vec ys _) => ys == [some 0, some 1, some 0] | _ => false) = true ∧
+    (match binaryFn (.vec [some 7, some 9] true) .pyNone with
+      | .ok (.vec ys _) => ys == [some 1, some 0] | _ => false) = true :=
+  ⟨ok_of_toBool _ (by decide +kernel), by decide +kernel, by decide +kernel⟩
+/-- `C16_alias_T_partial` / `C16_alias_S_partial`: a string column is not a box -/
+example : ∀ b, Val.lvec [some (.s "a")] none ≠ .box b := by intro b h; cases h
+/-- `C16_alias_eval` applies to the three alias pairs -/
+example : finishCall "B" = finishCall "binary" := C16_alias_functions.1
 
 end FormulaeModel.C16
